@@ -1,4 +1,4 @@
-import Proofs.SubmitCrash
+import Proofs.SubmitDuring
 
 /-!
 # C06 — every committed block reaches the DA layer in order; the watermark is sound
@@ -301,6 +301,65 @@ theorem C06 (c : Cfg) (hpos : 1 ≤ c.initialHeight) (acts : List ActR) :
   · exact pendingBlocks_exists (fun k k1 k2 => by
       obtain ⟨b, hb, _⟩ := r.pinv.chain k (by omega) k2; exact ⟨b, hb⟩)
 
+/-! ## 4b. a block committed while a submission body runs (the submission loops and the aggregation loop are different
+goroutines) -/
+
+/-- **A data tick on the list it read, a block committed meanwhile** (`Submit.dataIterDuring`, executed by the driver for the
+stream op `subd … during=produce:<txs>`; on the real node the harness commits the block at the body's first signer call or
+first `Submit` call): **the data watermark stops at the last block the body examined** — it is the watermark of the tick on
+the node as it was, at most the chain height *before* the block; the new block is above it and stays pending.  (Seeded change
+C13-G computed the new watermark from a second read of the chain height and jumped over the new block.) -/
+theorem C06_data_tick_during_production (c : Cfg) (a : ANode) (script : List DAAns) (r : SeqResp) (e : ExecResp)
+    (hok : ∀ h, a.n.dataWm < h → h ≤ a.n.store.height → ∃ b, a.n.store.getBlock h = some b ∧ dataHeight b = h)
+    (hle : a.n.dataWm ≤ a.n.store.height) :
+    (dataIterDuring c a script r e).1.n.dataWm = (dataIter a script).1.n.dataWm ∧
+    (dataIterDuring c a script r e).1.n.dataWm ≤ a.n.store.height ∧
+    (dataIterDuring c a script r e).1.daBlobs = (dataIter a script).1.daBlobs ∧
+    (dataIterDuring c a script r e).1.dMarks = (dataIter a script).1.dMarks := by
+  have h := dataIter_wm_le a script hok hle
+  obtain ⟨_, hi, _⟩ := dataIter_iter a script
+  rw [hi.frame.height] at h
+  exact ⟨rfl, h, rfl, rfl⟩
+
+/-- **`dataIter_then_produce_commutes`.**  For the current code, a block committed while a data tick runs gives the same node
+as the tick followed by the production step — same production outcome and writes, same memory, same blocks, chain height,
+saved state, and the same metadata under every key — whenever the pending-limit test answers the same before and after
+the tick (always without a limit; with a limit the driver executes the merged semantics, in which the production step
+sees the counters as they were).  Likewise for a header tick. -/
+theorem dataIter_then_produce_commutes (c : Cfg) (a : ANode) (script : List DAAns) (r : SeqResp) (e : ExecResp)
+    (hr : pendingRefuses c (dataIter a script).1.n = pendingRefuses c a.n) :
+    let m := (dataIterDuring c a script r e).1
+    let q := stepA c (stepA c a (.subD script)) (.produce r e)
+    (dataIterDuring c a script r e).2.2.2.2 = (publish c (dataIter a script).1.n r e).2.2 ∧
+    m.hMarks = q.hMarks ∧ m.dMarks = q.dMarks ∧ m.daInc = q.daInc ∧ m.finals = q.finals ∧ m.daH = q.daH ∧
+    m.daBlobs = q.daBlobs ∧ m.daBytes = q.daBytes ∧
+    m.n.lastState = q.n.lastState ∧ m.n.lastBatchData = q.n.lastBatchData ∧ m.n.hdrWm = q.n.hdrWm ∧
+    m.n.dataWm = q.n.dataWm ∧ m.n.daHeight = q.n.daHeight ∧ m.n.store.blocks = q.n.store.blocks ∧
+    m.n.store.height = q.n.store.height ∧ m.n.store.state = q.n.store.state ∧
+    ∀ key, m.n.store.getMeta key = q.n.store.getMeta key := by
+  obtain ⟨_, hi, _⟩ := dataIter_iter a script
+  obtain ⟨h0, h1, h2, h3, h4, h5, h6, h7, h8, h9⟩ := during_commutes hi r e hr
+  refine ⟨?_, rfl, rfl, rfl, rfl, rfl, rfl, rfl, h1, h2, h3, h4, h5, h6, h7, h8, h9⟩
+  show (publish c a.n r e).2.2 = _
+  rw [h0]
+
+theorem headersIter_then_produce_commutes (c : Cfg) (a : ANode) (script : List DAAns) (r : SeqResp) (e : ExecResp)
+    (hr : pendingRefuses c (headersIter a script).1.n = pendingRefuses c a.n) :
+    let m := (headersIterDuring c a script r e).1
+    let q := stepA c (stepA c a (.subH script)) (.produce r e)
+    m.hMarks = q.hMarks ∧ m.dMarks = q.dMarks ∧ m.daBlobs = q.daBlobs ∧
+    m.n.lastState = q.n.lastState ∧ m.n.hdrWm = q.n.hdrWm ∧ m.n.dataWm = q.n.dataWm ∧
+    m.n.store.blocks = q.n.store.blocks ∧ m.n.store.height = q.n.store.height ∧ m.n.store.state = q.n.store.state ∧
+    ∀ key, m.n.store.getMeta key = q.n.store.getMeta key := by
+  obtain ⟨_, hi, _⟩ := headersIter_iter a script
+  obtain ⟨_, h1, _, h3, h4, _, h6, h7, h8, h9⟩ := during_commutes hi r e hr
+  exact ⟨rfl, rfl, rfl, h1, h3, h4, h6, h7, h8, h9⟩
+
+/-- without a pending limit the hypothesis holds -/
+theorem no_limit_refusal_unchanged (c : Cfg) (n n' : Node) (h : c.maxPending = 0) :
+    pendingRefuses c n' = pendingRefuses c n := by
+  simp [pendingRefuses, h]
+
 /-! ## 5. the submitted blobs -/
 
 theorem keyBytes_ne_nil (k : KeyId) : keyBytes k ≠ [] := by simp [keyBytes]
@@ -544,6 +603,16 @@ example : let a := (dataIter (headersIter xNode []).1 []).1
         | some sh => sh.header.height == e.2.2.1 && sh.signer.pubKey == keyBytes 1 &&
             sh.signature == sigBytes (Sig.by 1 sh.header.encode)
         | none => false) = true := by
+  decide +kernel
+
+/-- the case the seeded change needs, evaluated by the kernel: two empty blocks pending, a block with a transaction
+committed while the data tick runs: the watermark stops at 2, block 3 stays pending and is submitted by the next tick -/
+def twoEmpty : ANode :=
+  { freshA xCfg with n := run xCfg (freshNode xCfg) [(.batch [] 150 [], .ok), (.batch [] 200 [], .ok)] }
+
+example : let m := (dataIterDuring xCfg twoEmpty [] (.batch [[9]] 300 []) .ok).1
+    m.n.store.height = 3 ∧ m.n.dataWm = 2 ∧ (dataIter m []).1.n.dataWm = 3 ∧
+    (dataIter m []).2.2.1.map (·.heights) = [[3]] := by
   decide +kernel
 
 end Spec.C06
